@@ -11,6 +11,7 @@ import re
 from fractions import Fraction
 from pyexpr2lean import (Gen, Tr, Untranslatable, load, get_def, find_assign, find_assigns, find_returns,
                          find_calls, call_arg, body_to_lean, lean_num)
+from pysym import normalised_def, SymEx, canonical_locals, local_assigned_with, canon_cond, merge_paths, U as unp
 
 
 # ------------------------------------------------------------------------------------------------
@@ -319,7 +320,78 @@ HDR = '''variable {K : Type} [Num K]
 open Num'''
 
 
+def q2d_sides(module, fn, loop):
+    """path-wise analysis of the per-order loop body of compute_z_zprime_Q2d (symbolic execution, same-module helpers inlined):
+    for each of Sa, Sprimea, Sb, Sprimeb the value on every path, as a function of `N >= 0` and `m == 1 and N > 2`.
+    Returns dict(skip_both, sides={name: dict(base, corr, call, coef_ok, zero_when_empty, guarded)})"""
+    sx = SymEx(module)
+    sx.identity = sx._identities(fn)
+    paths = sx.block(list(loop.body), {}, [], [])
+    if not (isinstance(loop.target, ast.Tuple) and len(loop.target.elts) == 2 and all(isinstance(e, ast.Name) for e in loop.target.elts)):
+        raise Untranslatable('loop target is not a pair of names')
+    ca, cb = (e.id for e in loop.target.elts)
+    cont = [p for p in paths if p.kind == 'continue']
+    live = [p for p in paths if p.kind == 'fall']
+    if len(cont) + len(live) != len(paths) or not live:
+        raise Untranslatable('loop body has paths that neither fall through nor continue')
+    ms = {unp(p.env['m']) if 'm' in p.env else 'm' for p in live}
+    if len(ms) != 1:
+        raise Untranslatable('azimuthal order differs between paths')
+    MM = ms.pop()
+
+    def lens(c):
+        return [f'len({c}) - 1'] + [f'len({f}({c})) - 1' for f in MATERIALISERS]
+    found = None
+    if len(cont) == 1 and len(cont[0].conds) == 1 and cont[0].conds[0][1] is True:
+        for na in lens(ca):
+            for nb in lens(cb):
+                if cont[0].conds[0][0] in (norm(f'{na} < 0 and {nb} < 0'), norm(f'{nb} < 0 and {na} < 0')):
+                    found = (na, nb)
+    if found is None:
+        raise Untranslatable('skip condition of the loop not recognised')
+    out = {'skip_both': True, 'm': MM, 'sides': {}}
+    for sname, coef, NN, row in (('Sa', ca, found[0], 0), ('Sprimea', ca, found[0], 1), ('Sb', cb, found[1], 0), ('Sprimeb', cb, found[1], 1)):
+        ge0 = canon_cond(ast.parse(f'{NN} >= 0', mode='eval').body, True)[0]
+        c2 = canon_cond(ast.parse(f'{MM} == 1 and {NN} > 2', mode='eval').body, True)[0]
+        vals = {(False, None): set(), (True, False): set(), (True, True): set()}
+        nodes = {}
+        decided = True
+        for q in live:
+            pol = q.cond(ge0)
+            v = q.env.get(sname)
+            if pol is None or v is None:
+                decided = False
+                continue
+            key = (False, None) if not pol else (True, q.cond(c2))
+            if key not in vals:
+                decided = False
+                continue
+            vals[key].add(unp(v))
+            nodes[key] = v
+        rec = {'ok': False}
+        out['sides'][sname] = rec
+        if not decided or any(len(v) != 1 for v in vals.values()):
+            continue
+        base, full = nodes[(True, False)], nodes[(True, True)]
+        rec['zero_when_empty'] = vals[(False, None)] == {'0'}
+        if not (isinstance(full, ast.BinOp) and isinstance(full.op, ast.Sub) and unp(full.left) == unp(base)):
+            continue
+        calls = {unp(c_) for c_ in find_calls(base, 'clenshaw_q2d_der')} | {unp(c_) for c_ in find_calls(full.right, 'clenshaw_q2d_der')}
+        if len(calls) != 1:
+            continue
+        call = calls.pop()
+        args = [unp(a_) for a_ in ast.parse(call, mode='eval').body.args]
+        rec['coef_ok'] = len(args) == 3 and args[0] in [coef] + [f'{f}({coef})' for f in MATERIALISERS] and args[1] == MM and args[2] == 'usq' \
+            and not ast.parse(call, mode='eval').body.keywords
+        rec['base'] = N(base, {f'{call}[{row}][0]': 'a0'})
+        rec['corr'] = N(full.right, {f'{call}[{row}][3]': 'a3'})
+        rec['call'] = call
+        rec['ok'] = True
+    return out
+
+
 def generate(repo):
+    get_def = normalised_def          # helpers inlined, view aliases of table rows propagated (tools/pysym.py)
     g = GenT('C10', imports=['PrysmVerif.PyPrelude', 'PrysmVerif.Model.C10'], header=HDR)
     jac, _ = load(repo, JAC)
     qp, _ = load(repo, QP)
@@ -742,43 +814,17 @@ def generate(repo):
         loop = loops[0]
         it = ast.unparse(loop.iter)
         pairs_all = norm(it) == norm('zip_longest(ams, bms, fillvalue=())')
-        # skip (continue) conditions inside the loop
-        skips = [norm(ast.unparse(s.test)) for s in ast.walk(loop) if isinstance(s, ast.If)
-                 and any(isinstance(b, ast.Continue) for b in s.body)]
-        skip_both = skips == [norm('Na < 0 and Nb < 0')]
-        na = norm(ast.unparse(find_assign(fn, 'Na'))) == norm('len(a_coef) - 1')
-        nb = norm(ast.unparse(find_assign(fn, 'Nb'))) == norm('len(b_coef) - 1')
-
-        # the read-out of one side: S = 0.5*alphas[0][0]  [ - 2/5 * alphas[0][3]  if m == 1 and N > 2 ]
-        def side(S, al, Nn):
-            vals = find_assigns(fn, S)
-            base = [v for v in vals if isinstance(v, ast.BinOp)]
-            if len(base) != 1:
-                raise Untranslatable(f'{S}: expected one defining product')
-            b = N(base[0], {f'{al}[0][0]': 'a0', f'{al}[1][0]': 'a0'})
-            corr = [s for s in ast.walk(loop) if isinstance(s, ast.AugAssign) and ast.unparse(s.target) == S]
-            if len(corr) != 1 or not isinstance(corr[0].op, ast.Sub):
-                raise Untranslatable(f'{S}: expected one `-=` correction')
-            c = N(corr[0].value, {f'{al}[0][3]': 'a3', f'{al}[1][3]': 'a3'})
-            # its guard
-            guard = None
-            for s in ast.walk(loop):
-                if isinstance(s, ast.If) and corr[0] in s.body:
-                    guard = norm(ast.unparse(s.test))
-            g_ok = guard == norm(f'm == 1 and {Nn} > 2')
-            # it is evaluated only when its own list is non-empty
-            own = None
-            for s in ast.walk(loop):
-                if isinstance(s, ast.If) and any(isinstance(x, ast.Assign) and ast.unparse(x.targets[0]) == S for x in s.body):
-                    own = norm(ast.unparse(s.test))
-            return b, c, g_ok, own == norm(f'{Nn} >= 0')
-        ba, ca, ga, oa = side('Sa', 'alphas_a', 'Na')
-        bb, cb, gb, ob = side('Sb', 'alphas_b', 'Nb')
-        bpa, cpa, gpa, opa = side('Sprimea', 'alphas_a', 'Na')
-        bpb, cpb, gpb, opb = side('Sprimeb', 'alphas_b', 'Nb')
-        same = len({ba, bb, bpa, bpb}) == 1 and len({ca, cb, cpa, cpb}) == 1
-        zero_init = any(isinstance(s, ast.Assign) and len(s.targets) == 4 and ast.unparse(s.value) == '0'
-                        and sorted(ast.unparse(t) for t in s.targets) == ['Sa', 'Sb', 'Sprimea', 'Sprimeb'] for s in ast.walk(loop))
+        # per-side read-outs, guards and the skip condition: path-wise, so that it does not matter whether the two sides are
+        # written out twice in the loop or live in a helper called once per side
+        sd = q2d_sides(qp, fn, loop)
+        sides = sd['sides']
+        if not all(r['ok'] for r in sides.values()):
+            raise Untranslatable('per-side read-out not recognised')
+        skip_both = sd['skip_both']
+        ba, ca = sides['Sa']['base'], sides['Sa']['corr']
+        same = len({r['base'] for r in sides.values()}) == 1 and len({r['corr'] for r in sides.values()}) == 1
+        guards = True          # q2d_sides only accepts values that differ exactly on `m == 1 and N > 2`
+        own = all(r['zero_when_empty'] and r['coef_ok'] for r in sides.values())
         kern = N(find_assign(fn, 'kernel'), {'cost': 'c', 'sint': 's', 'Sa': 'Sa', 'Sb': 'Sb'})
         tot = N(find_assign(fn, 'total_sum'), {'um': 'um', 'kernel': 'k'})
         trig = norm(ast.unparse(find_assign(fn, 'cost'))) == norm('np.cos(m * t)') and \
@@ -797,8 +843,8 @@ def generate(repo):
             f'def q2dKernel (c s Sa Sb : K) : K := {kern}',
             f'def q2dTerm (um k : K) : K := {tot}',
             f'def q2dReadsAreUniform : Bool := {tri(same)}',
-            f'def q2dCorrectionOnlyForMOneAndNGreaterTwo : Bool := {tri(ga and gb and gpa and gpb)}',
-            f'def q2dEachSideEvaluatedIffItsListNonEmpty : Bool := {tri(oa and ob and opa and opb and zero_init and na and nb)}',
+            f'def q2dCorrectionOnlyForMOneAndNGreaterTwo : Bool := {tri(guards)}',
+            f'def q2dEachSideEvaluatedIffItsListNonEmpty : Bool := {tri(own)}',
             f'def q2dSkipsOnlyWhenBothEmpty : Bool := {tri(skip_both)}',
             f'def q2dPairsEveryOrderOfEitherList : Bool := {tri(pairs_all)}',
             f'def q2dAzimuthalOrderCountsFromOne : Bool := {tri(m_count and trig)}',
@@ -815,20 +861,68 @@ def generate(repo):
 
     # ---------------------------------------------------------------- structural facts
     def pack_fact():
+        # locals expanded; the two output lists may be built by an append loop or by comprehensions
         fn = get_def(qp, 'Q2d_nm_c_to_a_b')
-        a = norm(ast.unparse(find_assign(fn, 'max_m_a')))
-        b = norm(ast.unparse(find_assign(fn, 'max_m_b')))
-        ok_a = a in (norm('max(ac.keys(), default=0)'), norm('max(list(ac.keys()), default=0)'), norm('max(ac, default=0)'))
-        ok_b = b in (norm('max(bc.keys(), default=0)'), norm('max(list(bc.keys()), default=0)'), norm('max(bc, default=0)'))
-        bare_a = a in (norm('max(list(ac.keys()))'), norm('max(ac.keys())'), norm('max(ac)'))
-        bare_b = b in (norm('max(list(bc.keys()))'), norm('max(bc.keys())'), norm('max(bc)'))
-        if bare_a or bare_b:
+        paths = SymEx(qp).run(fn)
+        if len(paths) != 1 or paths[0].kind != 'return':
+            return None
+        ret = paths[0].value
+        if not (isinstance(ret, ast.Tuple) and len(ret.elts) == 3 and unp(ret.elts[0]) == 'cms'):
+            return None
+
+        def keyset(d):
+            return [f'{d}.keys()', f'list({d}.keys())', d, f'list({d})']
+
+        def range_top(it):
+            """X of range(1, X + 1)"""
+            if not (isinstance(it, ast.Call) and unp(it.func) == 'range' and len(it.args) == 2 and unp(it.args[0]) == '1'):
+                return None
+            hi = it.args[1]
+            if isinstance(hi, ast.BinOp) and isinstance(hi.op, ast.Add):
+                if unp(hi.right) == '1':
+                    return hi.left
+                if unp(hi.left) == '1':
+                    return hi.right
+            return None
+        tops = []
+        a_ret, b_ret = ret.elts[1], ret.elts[2]
+        if isinstance(a_ret, ast.ListComp) and isinstance(b_ret, ast.ListComp):
+            for comp, d in ((a_ret, 'ac'), (b_ret, 'bc')):
+                if len(comp.generators) != 1 or comp.generators[0].ifs or not isinstance(comp.generators[0].target, ast.Name):
+                    return None
+                v = comp.generators[0].target.id
+                if norm(unp(comp.elt)) != norm(f'{d}[{v}]'):
+                    return None
+                tops.append(range_top(comp.generators[0].iter))
+        elif isinstance(a_ret, ast.Name) and isinstance(b_ret, ast.Name):
+            loops = [e for e in paths[0].events if e[0] == 'loop' and any(
+                ev[0] == 'call' and unp(ev[1]).startswith(f'{a_ret.id}.append(') for bp in e[3] for ev in bp.events)]
+            if len(loops) != 1 or not isinstance(loops[0][1], ast.Name):
+                return None
+            v = loops[0][1].id
+            body = loops[0][3]
+            calls = sorted(unp(ev[1]) for bp in body for ev in bp.events)
+            if len(body) != 1 or calls != sorted([f'{a_ret.id}.append(ac[{v}])', f'{b_ret.id}.append(bc[{v}])']):
+                return None
+            if [norm(unp(x)) for x in find_assigns(fn, a_ret.id)] != ['[]'] or [norm(unp(x)) for x in find_assigns(fn, b_ret.id)] != ['[]']:
+                return None
+            tops.append(range_top(loops[0][2]))
+        else:
+            return None
+        if any(t is None for t in tops) or len({unp(t) for t in tops}) != 1:
+            return None
+        top = norm(unp(tops[0]))
+        bare = [norm(f'max({k})') for d in ('ac', 'bc') for k in keyset(d)]
+        if any(b in top for b in bare):
             return False            # max() of a possibly empty key set: raises for an absent family
-        mm = norm(ast.unparse(find_assign(fn, 'max_m'))) in (norm('max(max_m_a, max_m_b)'), norm('max(max_m_b, max_m_a)'))
-        loops = [l for l in for_loops(fn) if any(isinstance(c, ast.Call) and ast.unparse(c.func) == 'ac_ret.append' for c in ast.walk(l))]
-        rng = len(loops) == 1 and norm(ast.unparse(loops[0].iter)) in (norm('range(1, max_m + 1)'), norm('range(1, 1 + max_m)'))
-        ret = returns_in_order(fn)[-1]
-        return True if (ok_a and ok_b and mm and rng and norm(ast.unparse(ret)) == norm('(cms, ac_ret, bc_ret)')) else None
+        good = []
+        for ka in keyset('ac'):
+            for kb in keyset('bc'):
+                A, B = f'max({ka}, default=0)', f'max({kb}, default=0)'
+                good += [f'max({A}, {B})', f'max({B}, {A})']
+        good += ['max([*ac, *bc], default=0)', 'max((*ac, *bc), default=0)', 'max(chain(ac, bc), default=0)',
+                 'max(itertools.chain(ac, bc), default=0)', 'max(ac.keys() | bc.keys(), default=0)', 'max(set(ac) | set(bc), default=0)']
+        return True if top in [norm(t) for t in good] else None
     g.fact('packMaxOverKeysHasDefaultZero', f'{QP}:Q2d_nm_c_to_a_b', pack_fact)
 
     def tdot_fact():
@@ -852,20 +946,24 @@ def generate(repo):
     g.fact('sumOfModesContractsAxisZeroWithWeights', f'{INIT}:sum_of_2d_modes', tdot_fact)
 
     def lstsq_fact():
+        # the returned expression with every local expanded: local names, temporaries and the unpacking style do not matter
         fn = get_def(ini, 'lstsq')
-        mask = norm(ast.unparse(find_assign(fn, 'mask'))) in (norm('np.isfinite(data)'), norm('np.isfinite(np.asarray(data))'))
-        data = [norm(ast.unparse(v)) for v in find_assigns(fn, 'data')] in ([norm('data[mask]')], [norm('np.asarray(data)'), norm('data[mask]')])
-        modes = [norm(ast.unparse(v)) for v in find_assigns(fn, 'modes')]
-        reshapes = [norm(t) for t in ('modes.reshape((modes.shape[0], -1))', 'modes.reshape(modes.shape[0], -1)', 'modes.reshape(len(modes), -1)',
-                                      'modes.reshape((len(modes), -1))')]
-        selects = [norm(t) for t in ('modes[:, mask.ravel()].T', 'modes[:, mask.reshape(-1)].T', 'modes[:, mask.flatten()].T',
-                                     "modes[:, mask.ravel(order='C')].T")]
-        asarr = [norm('np.asarray(modes)')] + [norm(f'np.asarray({f}(modes))') for f in MATERIALISERS]
-        okm = len(modes) == 3 and modes[0] in asarr and modes[1] in reshapes and modes[2] in selects
-        calls = find_calls(fn, 'np.linalg.lstsq')
-        okc = len(calls) == 1 and [ast.unparse(a) for a in calls[0].args[:2]] == ['modes', 'data']
-        ret = returns_in_order(fn)[-1]
-        return True if (mask and data and okm and okc and ast.unparse(ret) == 'c') else None
+        paths = SymEx(ini).run(fn)
+        if len(paths) != 1 or paths[0].kind != 'return' or paths[0].events:
+            return None
+        got = norm(unp(paths[0].value))
+        import itertools
+        dbase = ['data', 'np.asarray(data)']
+        m0 = ['np.asarray(modes)'] + [f'np.asarray({f}(modes))' for f in MATERIALISERS]
+        resh = ['{X}.reshape(({X}.shape[0], -1))', '{X}.reshape({X}.shape[0], -1)', '{X}.reshape(len({X}), -1)', '{X}.reshape((len({X}), -1))']
+        flat = ['{K}.ravel()', '{K}.reshape(-1)', '{K}.flatten()', "{K}.ravel(order='C')"]
+        for d1, d2, mo, rs, fl in itertools.product(dbase, dbase, m0, resh, flat):
+            mask = f'np.isfinite({d1})'
+            sel = f'{rs.format(X=mo)}[:, {fl.format(K=mask)}].T'
+            for tail in ('[0]',):
+                if got == norm(f'np.linalg.lstsq({sel}, {d2}[{mask}], rcond=None){tail}'):
+                    return True
+        return None
     g.fact('lstsqDropsExactlyNonFiniteSamplesFromDataAndModes', f'{INIT}:lstsq', lstsq_fact)
 
     def iter_fact():
